@@ -41,7 +41,7 @@ def run(ctx):
     _, pred1 = sb.model_check(ctx, "c11-single", sb.consts("c11", sb.C11_KINDS, **single), invs, props=["C11_Recoverable"])
     _, pred2 = sb.model_check(ctx, "c11-pairs", sb.consts("c11", sb.C11_KINDS, **pairs), invs, timeout=2400, skip=pred1)
     scheds, model_k = sb.export_c11(ctx, sb.C11_KINDS, 1, 5, "single")
-    sb.check_K(ctx, dry, model_k)
+    kdrift = sb.check_K(ctx, dry, model_k)
     if ctx.quick:
         more, _ = sb.export_c11(ctx, ["whole", "dra", "fracx"], 2, 5, "pairs")
         more = [s for s in more if s["nfaults"] == 2]
@@ -59,6 +59,8 @@ def run(ctx):
                                                   "-kmax", json.dumps({k: v["K"] for k, v in dry.items()})])
     for t in (t1, t2):
         sb.validate(ctx, t, "C11_")
+    if kdrift:
+        raise vlib.Infra(kdrift)
     ctx.cov["evaluations"] += nrandom
     ctx.cov["edges_replayed_on_impl"] = len(scheds)
     ctx.cov["exhaustive"] = not ctx.quick
